@@ -205,7 +205,9 @@ func H13b() {
 	rec := func(local int, v byte, dev int) {
 		s = append(s, byte(local), v)
 		for i := 0; i < dev; i++ {
-			s = append(s, vByte())
+			// developer bytes are skipped unread; fixed values keep a
+			// mis-framed parse (which would read them as record headers) concrete
+			s = append(s, 0xE0|byte(i))
 		}
 	}
 	rec(A, hr1, a1+a2)
